@@ -427,7 +427,7 @@ class Lexer:
 
             elif state == 6:  # pattern
                 token += ch
-                if token.endswith("//"):
+                if token.endswith("//") and token != "///":
                     here = SourcePos(fname, startline, startcolumn)
                     self.tokens.append(Token(token, "pattern", here))
                     token = ""
